@@ -44,6 +44,13 @@ def justified_aliases():
     return set(re.findall(r'\("([^"]+)",\s*"([^"]+)"\)', src))
 
 
+def justified_instances():
+    src = open(GUARD).read()
+    src = src[src.index("Definition justified_instance_mismatches"):]
+    src = src[:src.index("].") + 2]
+    return set(re.findall(r'\("([^"]+)",\s*"([^"]+)"\)', src))
+
+
 def breaches(summary, g):
     """python transcription of Lockset.entry_ok / fields_classified (cross-checked against Coq by c20.py on every run)"""
     written = {e["field"] for e in summary["entries"] if e["kind"] == "W"}
@@ -64,6 +71,13 @@ def breaches(summary, g):
     for f in summary["declared_fields"]:
         if f not in g:
             out.add(("<declared>", f, "unclassified"))
+    jinst = justified_instances()
+    for x in summary.get("instance_mismatch_sites", []):
+        gd = g.get(x["base_field"])
+        held = dict(x["held"])
+        ok = gd == "I" or (isinstance(gd, list) and any(l in held for l in gd))
+        if not ok and (x["fn"], x["what"]) not in jinst:
+            out.add((x["fn"], x["what"], "instance-mismatch"))
     just = justified_aliases()
     for a in summary.get("global_alias_sites", []):
         if (a["var"], a["fn"]) not in just:
